@@ -287,6 +287,20 @@ func ops(m *model, k int) (out []struct {
 			}
 			add(step{Op: "drop_virtual_column", SQL: []string{"ALTER TABLE `t` DROP COLUMN `g`"}}, n)
 		}
+		// the VIRTUAL column and then an ordinary one dropped in the same file: only the second loses data.
+		if t.col("g") != nil && t.col("b") != nil {
+			n := m.clone()
+			nt := n.table("t")
+			var keep []col
+			for _, c := range nt.Cols {
+				if c.Name != "g" && c.Name != "b" {
+					keep = append(keep, c)
+				}
+			}
+			nt.Cols = keep
+			add(step{Op: "drop_virtual_then_ordinary_column", SQL: []string{"ALTER TABLE `t` DROP COLUMN `g`", "ALTER TABLE `t` DROP COLUMN `b`"},
+				Expect: []expect{{"DS103", "b", []string{"ALTER TABLE `t` DROP COLUMN `b`"}}}}, n)
+		}
 		// temporary column within one file
 		add(step{Op: "temp_column", SQL: []string{fmt.Sprintf("ALTER TABLE `t` ADD COLUMN `tmp%d` integer NULL", k), fmt.Sprintf("ALTER TABLE `t` DROP COLUMN `tmp%d`", k)}}, m.clone())
 	}
